@@ -552,4 +552,85 @@ theorem valid_rounds (clock : Nat → Int) (snaps : List (List Msg)) (hv : ∀ k
   rw [validLog_iff]
   simpa [rounds, List.range_eq_range', baseAt] using this
 
+/-! ## declared schema vs. field lookup; what tumble preserves; the panic prefix -/
+
+/-! schema / lookup -/
+theorem lookupIdx_of_find (name : String) : ∀ (fields : List (String × FTy)) (i : Nat),
+    findTimeField name fields = .ok true →
+    ∃ j, lookupIdx name fields i = i + j ∧ fields[j]? = some (name, .time) := by
+  intro fields
+  induction fields with
+  | nil => intro i h; simp [findTimeField] at h
+  | cons f rest ih =>
+    intro i h
+    obtain ⟨n, t⟩ := f
+    unfold findTimeField at h
+    by_cases hn : n = name
+    · subst hn
+      simp only [ne_eq, not_true_eq_false, if_false] at h
+      by_cases ht : t = .time
+      · subst ht
+        exact ⟨0, by simp [lookupIdx], by simp⟩
+      · simp [ht] at h
+    · simp only [ne_eq, hn, not_false_eq_true, if_true] at h
+      obtain ⟨j, h1, h2⟩ := ih (i + 1) h
+      refine ⟨j + 1, ?_, by simpa using h2⟩
+      simp only [lookupIdx, hn, if_false, h1]; omega
+
+/-- Timely is preserved -/
+theorem tumbleOk_timely {idx len off} : ∀ {ms out : List Msg} (w : Option Int), TumbleOk idx len off ms out →
+    Timely w ms → Timely w out
+  | [], [], _, _, _ => trivial
+  | .wm t :: _, .wm t' :: _, w, h, ht => by
+    have h1 : t' = t := h.1
+    subst h1
+    exact ⟨ht.1, tumbleOk_timely _ h.2 ht.2⟩
+  | .data r :: _, .data r' :: _, w, h, ht => by
+    have h1 : TumbleRecOk idx len off r r' := h.1
+    refine ⟨?_, tumbleOk_timely _ h.2 ht.2⟩
+    intro W hW
+    rw [h1.2.1]
+    exact ht.1 W hW
+  | .wm _ :: _, .data _ :: _, _, h, _ => by simp [TumbleOk, TumbleMsgOk] at h
+  | .data _ :: _, .wm _ :: _, _, h, _ => by simp [TumbleOk, TumbleMsgOk] at h
+  | [], _ :: _, _, h, _ => by simp [TumbleOk] at h
+  | _ :: _, [], _, h, _ => by simp [TumbleOk] at h
+
+theorem tumbleOk_no_retractions {idx len off} : ∀ {ms out : List Msg}, TumbleOk idx len off ms out →
+    (∀ r ∈ recs ms, r.retr = false) → ∀ r ∈ recs out, r.retr = false
+  | [], [], _, _ => by simp [recs]
+  | .wm _ :: _, .wm _ :: _, h, hm => by
+    simp only [recs] at hm ⊢
+    exact tumbleOk_no_retractions h.2 hm
+  | .data r :: _, .data r' :: _, h, hm => by
+    have h1 : TumbleRecOk idx len off r r' := h.1
+    simp only [recs, List.mem_cons, forall_eq_or_imp] at hm ⊢
+    exact ⟨by rw [h1.1]; exact hm.1, tumbleOk_no_retractions h.2 hm.2⟩
+  | .wm _ :: _, .data _ :: _, h, _ => by simp [TumbleOk, TumbleMsgOk] at h
+  | .data _ :: _, .wm _ :: _, h, _ => by simp [TumbleOk, TumbleMsgOk] at h
+  | [], _ :: _, h, _ => by simp [TumbleOk] at h
+  | _ :: _, [], h, _ => by simp [TumbleOk] at h
+
+/-- the first record without a value at the index: everything before it is emitted, then the panic -/
+theorem tumbleMsgs_panic (c : TumbleCfg) (idx : Nat) (hc : c.idx = idx) (hlen : 0 < c.len)
+    (h1 : minI64 < c.off) (h2 : c.off ≤ maxI64) (pre post : List Msg) (r : Rec) (ht : Timed idx pre)
+    (hr : r.vals[idx]? = none) :
+    (tumbleMsgs c (pre ++ .data r :: post)).2 = .panic ∧
+    TumbleOk idx c.len c.off pre (tumbleMsgs c (pre ++ .data r :: post)).1 := by
+  induction pre with
+  | nil =>
+    have : tumbleRec c r = none := by
+      unfold tumbleRec; rw [if_neg (by omega), hc, Int.toNat_natCast, hr]
+    simp [tumbleMsgs, this, TumbleOk]
+  | cons m pre ih =>
+    cases m with
+    | wm w =>
+      have := ih ht
+      simp [tumbleMsgs, TumbleOk, TumbleMsgOk, this]
+    | data r0 =>
+      obtain ⟨⟨t, loc, hv⟩, ht'⟩ := ht
+      obtain ⟨r', hr', hok⟩ := tumbleRec_spec c idx hc hlen h1 h2 r0 t loc hv
+      have := ih ht'
+      simp [tumbleMsgs, hr', TumbleOk, TumbleMsgOk, this, hok]
+
 end Octo.Tvf
